@@ -237,7 +237,11 @@ impl LanguageRegistry {
         let mut registry = Self::default();
         let mut overrides = Vec::new();
 
-        for (name, config) in custom {
+        // Register in name order: HashMap iteration order differs from run to run, and the
+        // last registration wins an extension claimed by several custom languages
+        let mut entries: Vec<_> = custom.iter().collect();
+        entries.sort_by(|a, b| a.0.cmp(b.0));
+        for (name, config) in entries {
             // Track which extensions will be overridden
             for ext in &config.extensions {
                 if let Some(existing_lang) = registry.get_by_extension(ext) {
